@@ -247,7 +247,11 @@ def _tables(hs):
         'time': {1: lambda: datetime.time(1, 2, 3), 2: lambda: datetime.time(1, 2, 4)},
         'dt': {1: lambda: utc.localize(datetime.datetime(2020, 2, 29, 1, 2, 3)),
                2: lambda: utc.localize(datetime.datetime(2020, 2, 29, 1, 2, 4)),
-               3: lambda: pytz.timezone('Europe/Paris').localize(datetime.datetime(2020, 7, 1, 12, 0, 0))},
+               3: lambda: pytz.timezone('Europe/Paris').localize(datetime.datetime(2020, 7, 1, 12, 0, 0)),
+               # the instant of 1 in another zone (another offset, another calendar day): a different cell content
+               4: lambda: pytz.timezone('America/Los_Angeles').localize(datetime.datetime(2020, 2, 28, 17, 2, 3)),
+               # the instant of 3 shown in UTC
+               5: lambda: utc.localize(datetime.datetime(2020, 7, 1, 10, 0, 0))},
         'list': {1: lambda: [1], 2: lambda: []},
         'dict': {1: lambda: {'a': 1}},
     }
@@ -277,7 +281,11 @@ class GridBinding(object):
             if isinstance(a, list):
                 return [strip(x) for x in a]
             return a
-        return json.dumps(strip(abs_value(self.hs, v)), sort_keys=True)
+        base = strip(abs_value(self.hs, v))
+        if isinstance(v, datetime.datetime) and v.utcoffset() is not None:
+            # the content of a date-time CELL is what its text shows: the instant and the offset it is shown at
+            base = [base, int(v.utcoffset().total_seconds())]
+        return json.dumps(base, sort_keys=True)
 
     def code(self, table, key):
         k = (table, key)
@@ -575,7 +583,7 @@ def run(tier):
             raise MachineryError('a generated mutant is not expected unequal')
         mclasses = set(e['mut']['m'] for e in edges)
         want = {'row_add', 'row_del', 'col_rename', 'meta_rename', 'meta_add', 'meta_del', 'cmeta_rename',
-                'cell_kind', 'cell_str', 'cell_content', 'cell_float', 'not_a_grid'}
+                'cell_kind', 'cell_str', 'cell_content', 'cell_float', 'not_a_grid', 'cols_swapped'}
         if mclasses != want:
             raise MachineryError('mutation classes never generated: %r' % sorted(want ^ mclasses))
         rep.extra['mutation_classes'] = {m: sum(1 for e in edges if e['mut']['m'] == m) for m in sorted(want)}
